@@ -4,7 +4,7 @@ import itertools
 
 from ..campaign import Result
 from .. import strategies as S
-from ._rt import run_case, shape_labels, RT_ASSUMPTIONS, context
+from ._rt import S_iter, run_case, shape_labels, RT_ASSUMPTIONS, context
 
 ID = 'C01'
 LEVEL = 'exploration'
@@ -61,6 +61,19 @@ def oracle(ix, res, prefix='C01', focus=None):
                              context(ix))
                 else:
                     exits.append((ex, r))
+                    if ix.is_sched(r):
+                        # "finished means that the nested scheduler's whole run is over": none
+                        # of its jobs, at any depth, is still executing
+                        alive = [d['id'] for d, _, _ in S_iter(ix.specs[r])
+                                 if d['kind'] == 'job'
+                                 and any(e['seq'] < first['seq'] for e in ix.enters(d['id']))
+                                 and not any(e['seq'] < first['seq'] for e in ix.exits(d['id']))]
+                        if alive:
+                            res.fail(prefix + ':start-before-nested-run-is-over',
+                                     "%s entered at seq %d (t=%s) while %s, inside its "
+                                     "requirement %s (run-exit at seq %d: %s), is still "
+                                     "executing" % (mid, first['seq'], first['t'], alive, r,
+                                                    ex['seq'], ex.get('how')), context(ix))
             if len(req[mid]) >= 2 and len(exits) == len(req[mid]):
                 times = {ex['t'] for ex, _ in exits}
                 if len(times) >= 2:
@@ -115,8 +128,8 @@ def _sweep_chunk(mask):
 
 def sweeps(tier):
     if tier != 'thorough':
-        return [S.ladder_sweep(['plain'])]
-    return [S.ladder_sweep(['plain']), ('all 4-node DAGs x durations x yields x windows x hash patterns', 64,
+        return [S.ladder_sweep(['plain']), S.requirement_endings_sweep()]
+    return [S.ladder_sweep(['plain']), S.requirement_endings_sweep(), ('all 4-node DAGs x durations x yields x windows x hash patterns', 64,
              _sweep_chunk)]
 
 TECHNIQUE = ("property-based testing (Hypothesis scenario generator, virtual-time asyncio "
